@@ -1,4 +1,5 @@
 """Glue between TermFlow and the rules: extract a term, read a spec, compare, report."""
+import os
 import ast
 
 from .model import AnalysisError, FunctionInfo
@@ -97,6 +98,12 @@ def same(ctx, rule, instance, fi, got, want, what, stmt=None, node=None):
         ctx.ok(rule, instance, where, "%s: %s [%s]" % (what, _clip(show(got)), how))
         ctx.sample({"rule": rule, "instance": instance, "term": _clip(show(got), 400), "decided_by": how})
         return True
+    undecided(ctx, rule, instance, [got])
+    if os.environ.get("PCSTATIC_DEBUG_TERMS"):
+        import pprint
+        with open(os.environ["PCSTATIC_DEBUG_TERMS"], "a") as fh:
+            from .debug import report
+            fh.write("==== %s / %s\n-- witness %s\n%s\n" % (rule, instance, wit, report(got, want, (wit or {}).get("trial", 0))))
     ctx.fail(
         rule,
         instance,
@@ -106,6 +113,59 @@ def same(ctx, rule, instance, fi, got, want, what, stmt=None, node=None):
         stmt=stmt if stmt is not None else what,
     )
     return False
+
+
+def unresolved_new_names(ctx, things):
+    """Names of repository functions / classes *newer than the rules* that survive as uninterpreted calls in the code's
+    terms or events (the interpreter looks into such helpers, so a survivor means it hit recursion or its depth bound)."""
+    prog = ctx.prog
+    short = {}
+    for fi in prog.functions.values():
+        short.setdefault(fi.name, []).append(fi)
+    out = set()
+
+    def look(name):
+        n = name[4:] if name.startswith("new:") else name
+        n = n.lstrip(".").split(".")[-1]
+        if name.startswith("new:"):
+            for ci in prog.classes.values():
+                if ci.name == n and prog.is_new_class(ci):
+                    out.add(n)
+            return
+        if n in short and all(prog.is_new_function(f) for f in short[n]):
+            out.add(n)
+
+    def scan(v):
+        if v is None:
+            return
+        for a in atoms_of(v):
+            if a[0] in ("call", "mcall", "upd") and len(a) > 1 and isinstance(a[1], str):
+                look(a[1])
+            elif a[0] == "obj":
+                out.add(str(a[1]).split(".")[-1])
+
+    for t in things:
+        if hasattr(t, "args") and hasattr(t, "name"):  # an Event
+            look(t.name)
+            for a in list(t.args) + list(t.kwargs.values()) + ([t.recv] if t.recv is not None else []) + list(getattr(t, "guards", []) or []):
+                try:
+                    scan(a)
+                except Exception:  # noqa
+                    pass
+        else:
+            try:
+                scan(t)
+            except Exception:  # noqa
+                pass
+    return sorted(out)
+
+
+def undecided(ctx, rule, instance, things):
+    """A comparison failed, but the code's side still goes through helpers the rules cannot know and the interpreter
+    could not look into: that is not a violation established, it is an analysis that cannot proceed."""
+    names = unresolved_new_names(ctx, things)
+    if names:
+        raise AnalysisError("%s / %s: cannot decide — the code goes through %s (newer than the rules; recursion or nesting beyond the interpreter's bound)" % (rule, instance, ", ".join(names)))
 
 
 def _clip(s, n=240):
@@ -165,6 +225,7 @@ def same_events(ctx, rule, instance, fi, got, want, what, skip_args=(), guards=F
         if _same_sequences(got, want, skip_args):
             ctx.ok(rule, instance, fi.where(), "%s: %d call(s) agree with the specification scenario by scenario (paths listed in a different order)" % (what, len(got)))
             return True
+        undecided(ctx, rule, instance, list(got))
         ctx.fail(rule, instance, fi.where(), "%s: %s; code: %s ; spec: %s" % (what, why, _clip(" | ".join(sig(e) for e in got), 700), _clip(" | ".join(sig(e) for e in want), 700)), construct=fi.qualname, stmt=what)
         return False
 
@@ -369,6 +430,7 @@ def same_effects(ctx, rule, instance, fi, got, want, what, ordered=False, trials
                 witness = (only_code, only_ref)
         if not any(verdicts):
             only_code, only_ref = witness
+            undecided(ctx, rule, instance, list(got))
             ctx.fail(rule, instance, fi.where(), "%s: in some guard scenario the code performs %s which the reference does not, and lacks %s" % (what, only_code[:4] or "nothing extra", only_ref[:4] or "nothing"), construct=fi.qualname, stmt=what)
             return False
     ctx.ok(rule, instance, fi.where(), "%s: %d effect site(s) agree with the reference in %d guard scenarios" % (what, len(got), trials))
